@@ -112,6 +112,19 @@ class P(HasTraits):
         STATIC.append(("c_nested", new))
 
 
+class PS(P):
+    """A subclass that only overrides two getters of the inherited (not redeclared) observed properties - the plain
+    getters of the base become cached ones."""
+
+    @cached_property
+    def _get_u_list(self):
+        return [getattr(c, "value", -1) for c in self.children]
+
+    @cached_property
+    def _get_p_a(self):
+        return self.a * 2
+
+
 PROPS = ["p_a", "c_a", "c_child", "c_list", "u_list", "c_table", "c_group", "c_nested", "c_multi"]
 WITH_STATIC = ("c_list", "c_child", "c_nested")
 
@@ -156,11 +169,14 @@ def strategy(tier):
         "handlers": st.booleans(),
         "explicit_empty": st.lists(st.booleans(), min_size=4, max_size=4),
         "ops": st.lists(OP, min_size=1, max_size=25),
+        "subclass": st.sampled_from([False, False, True]),
     })
 
 
 def run(case, ctx):
-    o = P()
+    o = PS() if case.get("subclass") else P()
+    if case.get("subclass"):
+        ctx.label("subclass-overriding-getters")
     # half of the pool has an explicitly assigned empty `children` list (an unmaterialised default is documented not to
     # be observed until read; an explicit empty container must be)
     pool = [Child(value=i, children=[]) if e else Child(value=i) for i, e in enumerate(case["explicit_empty"])]
